@@ -87,18 +87,34 @@ arbitrary caches, clocks, types and names per operation.  `runOps [] ops` is the
 **sightings**: every QM question the instance transmitted and every QM question it heard that it can answer, each with its time and
 known-answer list.  The sentence of the property speaks about these sightings, not about the dict. -/
 
-/-- the run is chronological and lies in the past of `now` -/
+/-- the clean-up ticks of the run lie in the past of `now` (the only thing `C13_run_suppress_iff` needs of the run's clocks) -/
+def C13.TicksPast (ops : List Op) (now : Int) : Prop := ∀ t, Op.tick t ∈ ops → t ≤ now
+
+/-- the operations **execute in the order of the times they carry**, all in the past of `now`.
+**This is not the property's own quantifier**: it is a restriction on runs, and the library produces runs outside it.  `Op.hear pkts T`
+carries the arrival time `T` of the query's last packet; a truncated (TC) query whose train is incomplete is held back by the listener
+(`_listener.py` `handle_query_or_defer`) and *executes* at `T + 400..500`.  A run in which a browser or lookup asks between `T` and that
+instant has the `hear` op after the ask in execution order although it carries an earlier time — not `Chrono`.  On such runs the code sends
+a question the sentence forbids: finding R3-C13-a (`C13_heard_at_arrival_refuted`).  `Chrono` is a hypothesis of
+`C13_suppress_any_sighting_partial` only; `C13_run_suppress_iff` holds for every execution order (`TicksPast`). -/
 def C13.Chrono (ops : List Op) (now : Int) : Prop := ops.Pairwise (fun a b => a.time ≤ b.time) ∧ ∀ op ∈ ops, op.time ≤ now
 
-/-- **What the code decides, in terms of the run.**  After any chronological run from the empty history, a browser question asked at `now`
-is omitted iff it is QM and the **latest** sighting of that question in the run — asked or heard — is at most 999 ms old with a
-known-answer list of which every record is among ours.  The clean-up ticks of the run play no role; neither does which browser or lookup
-asked.  (Same for a lookup question: `C13_run_lookup_suppress_iff`.) -/
-theorem C13_run_suppress_iff (ops : List Op) (now : Int) (hc : C13.Chrono ops now) (cache : List Rec) (qu : Bool) (ty : String) :
+theorem C13.Chrono.ticksPast {ops : List Op} {now : Int} (h : C13.Chrono ops now) : C13.TicksPast ops now :=
+  fun t ht => h.2 (.tick t) ht
+
+/-- **What the code decides, in terms of the run.**  After any run from the empty history — `ops` in the order in which the operations
+**executed**, whatever times they carry, the clean-up ticks in the past of `now` — a browser question asked at `now` is omitted iff it is
+QM and the sighting of that question that was **written last** — asked or heard — is stamped at most 999 ms ago with a known-answer list of
+which every record is among ours.  A heard query that the listener deferred is an `Op.hear` at the place where it executed, stamped with
+its arrival time; before that place it is not a sighting for the code, although the instance has heard it (finding R3-C13-a).
+The clean-up ticks play no role; neither does which browser or lookup asked.  (Lookup question: `C13_run_lookup_suppress_iff`.)
+`runOps` is a proof-level composition: the driver has no run command — the harness replays a run operation by operation
+(`c13svc`, `c13req`, `c13hearm`, `c13expire`, each fed the implementation's history before the step), which is `Op.run` step by step. -/
+theorem C13_run_suppress_iff (ops : List Op) (now : Int) (hc : C13.TicksPast ops now) (cache : List Rec) (qu : Bool) (ty : String) :
     (askType lower cache (runOps lower [] ops).1 now qu ty).1 = none ↔
       qu = false ∧ ∃ s, lastSighting lower (runOps lower [] ops).2 { name := ty, type := 12, class_ := 1, unique := qu } = some s ∧
         now - s.time ≤ 999 ∧ Covers lower s (knownAnswers lower cache ty 12 1 now) := by
-  have hf := runOps_futEqAt lower now ops [] [] (by simp [History.Keyed]) hc.2 (fun _ _ => rfl)
+  have hf := runOps_futEqAt lower now ops [] [] (by simp [History.Keyed]) hc (fun _ _ => rfl)
   rw [askType_eq]
   cases qu with
   | true => simp
@@ -115,12 +131,12 @@ theorem C13_run_suppress_iff (ops : List Op) (now : Int) (hc : C13.Chrono ops no
       · intro hh; cases hh
       · intro hex; exact absurd ((suppresses_seeAll lower _ _ now _).2 hex) hs
 
-theorem C13_run_lookup_suppress_iff (ops : List Op) (now : Int) (hc : C13.Chrono ops now) (cache : List Rec) (qu : Bool)
+theorem C13_run_lookup_suppress_iff (ops : List Op) (now : Int) (hc : C13.TicksPast ops now) (cache : List Rec) (qu : Bool)
     (name : String) (type cls : Nat) :
     (addQuestion lower cache (runOps lower [] ops).1 now qu name type cls false).1 = none ↔
       qu = false ∧ ∃ s, lastSighting lower (runOps lower [] ops).2 { name, type, class_ := cls, unique := qu } = some s ∧
         now - s.time ≤ 999 ∧ Covers lower s (knownAnswers lower cache name type cls now) := by
-  have hf := runOps_futEqAt lower now ops [] [] (by simp [History.Keyed]) hc.2 (fun _ _ => rfl)
+  have hf := runOps_futEqAt lower now ops [] [] (by simp [History.Keyed]) hc (fun _ _ => rfl)
   rw [addQuestion_eq]
   cases qu with
   | true => simp
@@ -161,7 +177,7 @@ theorem C13_suppressed_only_if_sighted (ops : List Op) (now : Int) (hc : C13.Chr
     (h : (askType lower cache (runOps lower [] ops).1 now qu ty).1 = none) :
     qu = false ∧ C13.SomeSightingCovers lower (runOps lower [] ops).2 { name := ty, type := 12, class_ := 1, unique := qu } now
       (knownAnswers lower cache ty 12 1 now) := by
-  obtain ⟨hq, s, hs, hw, hcov⟩ := (C13_run_suppress_iff lower ops now hc cache qu ty).1 h
+  obtain ⟨hq, s, hs, hw, hcov⟩ := (C13_run_suppress_iff lower ops now hc.ticksPast cache qu ty).1 h
   obtain ⟨hm, hk⟩ := lastSighting_some lower hs
   exact ⟨hq, s, hm, hk, hw, hcov⟩
 
@@ -178,7 +194,7 @@ theorem C13_suppress_any_sighting_partial (ops : List Op) (now : Int) (hc : C13.
   constructor
   · intro h; exact (C13_suppressed_only_if_sighted lower ops now hc cache false ty h).2
   · intro hsome
-    rw [C13_run_suppress_iff lower ops now hc]
+    rw [C13_run_suppress_iff lower ops now hc.ticksPast]
     refine ⟨rfl, ?_⟩
     have hsome' := hsome
     obtain ⟨s0, hm0, hk0, hw0, -⟩ := hsome'
@@ -225,6 +241,48 @@ theorem C13_suppress_any_sighting_refuted : ¬ C13.suppress_any_sighting_full id
 without the heard query) -/
 example : (askType id [exInst0] (runOps id [] exLastWorse).1 500 false "_x._tcp.local.").1.isSome = true ∧
     (askType id [exInst0] (runOps id [] (exLastWorse.take 1)).1 500 false "_x._tcp.local.").1.isNone = true := by decide
+
+/-! ## heard on arrival vs. written when processed (finding R3-C13-a) -/
+
+/-- **The sentence, for a heard query, from the moment it is heard**: whatever the history holds (`h`: the state at our ask), if a query
+`pkts` in which some packet asks the PTR question of `ty` QM, answerable by this host, **arrived** at `T` at most 999 ms before our ask at
+`now`, and we list ourselves every record of its non-probe packets, our own QM question is not sent. -/
+def C13.heard_at_arrival_full : Prop :=
+  ∀ (cache : List Rec) (h : History) (pkts : List HeardPacket) (T now : Int) (ty : String),
+    (∃ p ∈ pkts, ∃ qc ∈ p.questions, qc.1.beq lower { name := ty, type := 12, class_ := 1, unique := false } = true ∧ qc.2 = true ∧ qc.1.unique = false) →
+    T ≤ now → now - T ≤ 999 →
+    (∀ p ∈ pkts, p.probe = false → ∀ r ∈ p.records, ∃ k ∈ knownAnswers lower cache ty 12 1 now, r.beq lower k = true) →
+    (askType lower cache h now false ty).1 = none
+
+/-- **… holds once the query has been processed (partial: finding R3-C13-a).**  The hypothesis `hproc` — the history at our ask is the
+one `async_response` left (`hearQuery h0 pkts T`) — is exactly what fails inside the listener's deferral window: a truncated (TC) query
+whose train is incomplete is heard at `T` but processed at `T + 400..500`; an ask in between sees `h0`. -/
+theorem C13_heard_at_arrival_partial (cache : List Rec) (h h0 : History) (pkts : List HeardPacket) (T now : Int) (ty : String)
+    (hproc : h = hearQuery lower h0 pkts T)
+    (hheard : ∃ p ∈ pkts, ∃ qc ∈ p.questions,
+      qc.1.beq lower { name := ty, type := 12, class_ := 1, unique := false } = true ∧ qc.2 = true ∧ qc.1.unique = false)
+    (hgap : now - T ≤ 999)
+    (hcov : ∀ p ∈ pkts, p.probe = false → ∀ r ∈ p.records, ∃ k ∈ knownAnswers lower cache ty 12 1 now, r.beq lower k = true) :
+    (askType lower cache h now false ty).1 = none := by
+  rw [hproc]
+  exact C13_heard_query_suppressed lower cache h0 pkts T now ty hheard hgap hcov
+
+/-- a one-packet query asking the PTR question of `_x._tcp.local.` QM, answerable by this host, with no known answers -/
+def exHeardPkt : HeardPacket :=
+  { probe := false, questions := [({ name := "_x._tcp.local.", type := 12, class_ := 1, unique := false }, true)], records := [] }
+
+/-- **false today (finding R3-C13-a)**: with the history still empty — the heard TC packet sits in the listener's deferral queue — our
+own question 1 ms after hearing a query with an empty known-answer list is sent. -/
+theorem C13_heard_at_arrival_refuted : ¬ C13.heard_at_arrival_full id := by
+  intro h
+  have := h [] [] [exHeardPkt] 1000 1001 "_x._tcp.local."
+    ⟨exHeardPkt, List.mem_singleton.2 rfl, ({ name := "_x._tcp.local.", type := 12, class_ := 1, unique := false }, true), List.mem_singleton.2 rfl,
+      by decide, rfl, rfl⟩
+    (by decide) (by decide)
+    (by intro p hp _ r hr; rw [List.mem_singleton.1 hp] at hr; exact absurd hr (by simp [exHeardPkt]))
+  have h2 : (askType id [] [] 1001 false "_x._tcp.local.").1.isSome = true := by decide
+  rw [this] at h2
+  cases h2
 
 /-! ## what one `generate_service_query` / `_generate_request_query` call emits -/
 
